@@ -259,7 +259,8 @@ def render(prog, lang, layout=0):
                     mark_end()
                     continue
                 if v == "strdelim":
-                    lit = '"{ ( # // } )"'
+                    # now and then a form feed / vertical tab inside the literal: characters some line splitters take for line breaks
+                    lit = ('"{ ( # // } )"', '"{ ( \x0c # // } )"', '"{ (\x0b # // } )"')[len(out) % 3]
                     if py:
                         L(f"{snm}{scount} = {lit}")
                     elif jsl:
